@@ -4,6 +4,7 @@ mod chainsim;
 mod checks;
 mod crashsim;
 mod node;
+mod poolsim;
 mod refmodel;
 mod rng;
 mod sim;
@@ -99,6 +100,7 @@ fn main() {
 				Some("storesim") => storesim::replay(rp),
 				Some("crashsim") => crashsim::replay(rp),
 				Some("txhsim") => txhsim::replay(rp),
+				Some("poolsim") => poolsim::replay(rp),
 				Some("wiresim") => {
 					if rp["property"].as_str() == Some("C11") {
 						wiresim::replay_c11(rp)
